@@ -47,6 +47,14 @@ pub(crate) fn open<Fd: AsFd, P: AsRef<Path>>(
         })?
     }
 
+    // Like every other open in libpathrs (and like the emulated one-shot open,
+    // which goes through openat_follow()), never acquire a controlling
+    // terminal. O_NOCTTY is meaningless (and refused by openat2) with O_PATH.
+    let mut oflags = oflags;
+    if !oflags.contains(OpenFlags::O_PATH) {
+        oflags.insert(OpenFlags::O_NOCTTY);
+    }
+
     let rflags = libc::RESOLVE_IN_ROOT | libc::RESOLVE_NO_MAGICLINKS | rflags.bits();
     let how = OpenHow {
         flags: oflags.bits() as u64,
